@@ -81,6 +81,8 @@ ExecOK(b, v) == b <= 0 \/ (tree.kind[b] = "ok" /\ v = "g")
 \* node state (record ns)
 \*  index   free blocks in the in-memory block index
 \*  errs    index nodes carrying errLog
+\*  dangling  index nodes whose ancestry passes through a node that was deleted from the index
+\*            (their parent pointers no longer reach the best chain: FindFork gives nil)
 \*  pidOf   pid recorded on the index node
 \*  stored  body variant kept in the database under the block's hash ("none": nothing)
 \*  orph    orphan pool in arrival order: records [b, v, pid]
@@ -116,9 +118,16 @@ AddSeq(s, ty, b) == [s EXCEPT !.seqs = (s.last + 1 :> <<ty, b>>) @@ s.seqs, !.la
 Front(q) == SubSeq(q, 1, Len(q) - 1)
 RemoveOrph(q, b) == SelectSeq(q, LAMBDA r : r.b # b)
 
-\* connectBlock failed for index node a (handleErrBlk)
+RECURSIVE IsAnc(_, _)
+\* a is a proper ancestor of x
+IsAnc(a, x) == IF x <= 0 THEN FALSE ELSE tree.parent[x] = a \/ IsAnc(a, tree.parent[x])
+
+\* connectBlock failed for index node a (handleErrBlk): errLog, or for pid "download" the node is deleted
+\* from the index, which leaves the index nodes below it dangling
 HandleErr(s, a, v) ==
-  LET s1 == IF s.pidOf[a] = "download" THEN [s EXCEPT !.index = s.index \ {a}]
+  LET s1 == IF s.pidOf[a] = "download"
+            THEN [s EXCEPT !.index = s.index \ {a},
+                           !.dangling = (s.dangling \ {a}) \cup {x \in s.index : IsAnc(a, x)}]
             ELSE [s EXCEPT !.errs = s.errs \cup {a}] IN
   [s1 EXCEPT !.rejected = s.rejected \cup {<<a, v>>},
              !.reexec = s.reexec \/ (<<a, v>> \in s.rejected)]
@@ -147,6 +156,10 @@ AcceptBlock(s, x, top) ==
                         !.index = s.index \cup {b},
                         !.errs = s.errs \ {b},
                         !.pidOf[b] = x.pid] IN
+    IF Par(b) \in s.dangling
+    THEN \* no fork point with the best chain: refused, the new node is dropped again (the body stays stored)
+         Fail([s1 EXCEPT !.index = s.index \ {b}], "invalid")
+    ELSE
     IF Par(b) = Tip(s1)
     THEN IF ExecOK(b, x.v)
          THEN Accepted(AddSeq([s1 EXCEPT !.best = Append(s1.best, b), !.stored[b] = x.v], "add", b), x, top, TRUE)
@@ -188,7 +201,7 @@ Emit(r) == act' = IF ~EmitOn THEN ""
 TreeJson == [op |-> "Tree", n |-> tree.n, parent |-> tree.parent, work |-> tree.work,
              kind |-> tree.kind, tamper |-> tree.tamper, trunk |-> TrunkH, base |-> BaseH]
 
-Node0 == [index |-> {}, errs |-> {}, pidOf |-> [b \in Free |-> "peer"],
+Node0 == [index |-> {}, errs |-> {}, dangling |-> {}, pidOf |-> [b \in Free |-> "peer"],
           stored |-> [b \in Free |-> "none"], orph |-> <<>>,
           best |-> [i \in 1..(TrunkH - BaseH) |-> -(BaseH + i)],
           seqs |-> [i \in 0..TrunkH |-> <<"add", -i>>], last |-> TrunkH,
@@ -278,7 +291,8 @@ Spec == Init /\ [][Next]_vars
 
 Idle == ns.phase = "idle" /\ tree.n >= NGrow
 
-TypeOK == /\ ns.errs \subseteq ns.index
+TypeOK == /\ ns.errs \subseteq ns.index /\ ns.dangling \subseteq ns.index
+          /\ \A i \in 1..Len(ns.best) : ns.best[i] \notin ns.dangling
           /\ ns.phase \in {"idle", "reorg", "orphans"}
           /\ ns.phase = "orphans" => (ns.queue # <<>> /\ HasKids(ns, Head(ns.queue)))
           /\ \A i \in 1..Len(ns.best) : H(ns.best[i]) = BaseH + i
